@@ -305,6 +305,25 @@ func iteConstLeaves(t *Term, budget int) int {
 	return l + r
 }
 
+// like iteConstLeaves but leaves may also be variables (byte predicates on them are decided by domains)
+func iteSimpleLeaves(t *Term, budget int) int {
+	if t.op == OConst || t.op == OVar {
+		return 1
+	}
+	if t.op != OIte || budget <= 0 {
+		return 0
+	}
+	l := iteSimpleLeaves(t.b, budget-1)
+	if l == 0 {
+		return 0
+	}
+	r := iteSimpleLeaves(t.c, budget-1-l)
+	if r == 0 || l+r > budget {
+		return 0
+	}
+	return l + r
+}
+
 func (tb *TB) mapLeaves(t *Term, f func(*Term) *Term) *Term {
 	if t.op == OIte {
 		return tb.Ite(t.a, tb.mapLeaves(t.b, f), tb.mapLeaves(t.c, f))
@@ -688,7 +707,7 @@ func (tb *TB) InSet(a *Term, set ByteSet) *Term {
 	if set.Empty() {
 		return tb.False
 	}
-	if a.op == OIte && iteConstLeaves(a, liftBudget) > 0 {
+	if a.op == OIte && iteSimpleLeaves(a, 16) > 0 {
 		return tb.mapLeaves(a, func(l *Term) *Term { return tb.InSet(l, set) })
 	}
 	sc := set
@@ -725,7 +744,7 @@ func (tb *TB) Eq(a, b *Term) *Term {
 		return tb.False
 	}
 	if b.op == OConst {
-		if a.op == OIte && iteConstLeaves(a, liftBudget) > 0 {
+		if a.op == OIte && (iteConstLeaves(a, liftBudget) > 0 || iteSimpleLeaves(a, 16) > 0) {
 			return tb.mapLeaves(a, func(l *Term) *Term { return tb.Eq(l, b) })
 		}
 		if a.op == OAdd && a.b.op == OConst {
@@ -763,7 +782,7 @@ func (tb *TB) Lt(a, b *Term) *Term {
 		return tb.False
 	}
 	if b.op == OConst {
-		if a.op == OIte && iteConstLeaves(a, liftBudget) > 0 {
+		if a.op == OIte && (iteConstLeaves(a, liftBudget) > 0 || iteSimpleLeaves(a, 16) > 0) {
 			return tb.mapLeaves(a, func(l *Term) *Term { return tb.Lt(l, b) })
 		}
 		if a.op == OAdd && a.b.op == OConst {
@@ -778,7 +797,7 @@ func (tb *TB) Lt(a, b *Term) *Term {
 		}
 	}
 	if a.op == OConst {
-		if b.op == OIte && iteConstLeaves(b, liftBudget) > 0 {
+		if b.op == OIte && (iteConstLeaves(b, liftBudget) > 0 || iteSimpleLeaves(b, 16) > 0) {
 			return tb.mapLeaves(b, func(l *Term) *Term { return tb.Lt(a, l) })
 		}
 		if b.op == OAdd && b.b.op == OConst {
